@@ -1,5 +1,8 @@
 """String2Key coded count (RFC 4880 3.7.1.3) and S2K specifier codec agreement (shared by C09.4 and C12.3/4)."""
 import ast
+import math
+from fractions import Fraction
+from numbers import Rational
 
 from .interp import Interp, Scenario, Sym, Const, Bytes, Obj, render, render_items, merge_consts, render_item
 from .loader import AnalysisError
@@ -11,7 +14,8 @@ class _NoFold(Exception):
     pass
 
 
-_BUILTINS = {'divmod': divmod, 'min': min, 'max': max, 'abs': abs, 'int': int, 'bool': bool, 'pow': pow}
+_BUILTINS = {'divmod': divmod, 'min': min, 'max': max, 'abs': abs, 'int': int, 'bool': bool, 'pow': pow, 'round': round,
+             'math.ceil': math.ceil, 'math.floor': math.floor, 'ceil': math.ceil, 'floor': math.floor, 'math.trunc': math.trunc}
 
 
 def fold(node, env):
@@ -38,13 +42,12 @@ def fold(node, env):
         raise _NoFold(t)
     if isinstance(node, ast.Tuple):
         return tuple(fold(e, env) for e in node.elts)
-    if isinstance(node, ast.Call) and isinstance(node.func, ast.Name) and node.func.id in _BUILTINS and not node.keywords \
-            and node.func.id not in env:
+    if isinstance(node, ast.Call) and not node.keywords and ast.unparse(node.func) in _BUILTINS and ast.unparse(node.func) not in env:
         args = [fold(a, env) for a in node.args]
-        if not all(isinstance(a, int) for a in args):
+        if not all(isinstance(a, Rational) for a in args):
             raise _NoFold(ast.unparse(node))
         try:
-            return _BUILTINS[node.func.id](*args)
+            return _BUILTINS[ast.unparse(node.func)](*args)
         except Exception:
             raise _NoFold(ast.unparse(node))
     if isinstance(node, ast.IfExp):
@@ -55,9 +58,15 @@ def fold(node, env):
         table = {ast.Add: lambda: a + b, ast.Sub: lambda: a - b, ast.Mult: lambda: a * b, ast.FloorDiv: lambda: a // b,
                  ast.Mod: lambda: a % b, ast.LShift: lambda: a << b, ast.RShift: lambda: a >> b, ast.BitAnd: lambda: a & b,
                  ast.BitOr: lambda: a | b, ast.BitXor: lambda: a ^ b, ast.Pow: lambda: a ** b}
+        if op is ast.Div and isinstance(a, Rational) and isinstance(b, Rational) and b != 0:
+            q = Fraction(a) / Fraction(b)           # exact true division (no float rounding in the checker)
+            return q
         if op not in table:
             raise _NoFold(ast.unparse(node))
-        return table[op]()
+        try:
+            return table[op]()
+        except (ZeroDivisionError, TypeError, ValueError, OverflowError):
+            raise _NoFold(ast.unparse(node))
     if isinstance(node, ast.UnaryOp) and isinstance(node.op, ast.USub):
         return -fold(node.operand, env)
     if isinstance(node, ast.Compare):
@@ -303,9 +312,18 @@ def _active_axioms(prog, ci, fn):
 def _int_text(text, env):
     """Value of a rendered integer expression under env (the checker's own folding; None when it is not closed)."""
     try:
-        return fold(ast.parse(text.strip(), mode='eval').body, env)
-    except (_NoFold, SyntaxError, ZeroDivisionError):
+        return num_text(text, env)
+    except (_NoFold, SyntaxError):
         return None
+
+
+def num_text(text, env):
+    """Value of a rendered arithmetic expression (interpreter value text) under env.  SyntaxError: not an expression;
+    _NoFold: it names something env does not define."""
+    v = fold(ast.parse(text.strip(), mode='eval').body, env)
+    if isinstance(v, Fraction) and v.denominator == 1:
+        return int(v)
+    return v
 
 
 def check_s2k_codec(rep, prog, rid):
